@@ -305,6 +305,55 @@ fn child_inner(path: &str) -> i32 {
     0
 }
 
+
+/// Run the programs sequentially here and in a child process whose ambient state differs (TZ, TZDIR, LANG, LC_ALL, cwd, and the
+/// virtual zoneinfo directories created for real with other contents); every digest must be the same. Ok(number of ops compared).
+pub fn ambient_compare(progs: &[Program]) -> Result<u64, Failure> {
+    let path = crate::run::verif_dir().join(format!("build/c15-programs-{}.json", std::process::id()));
+    let _ = std::fs::create_dir_all(path.parent().unwrap());
+    std::fs::write(&path, serde_json::to_string(progs).unwrap()).map_err(|e| Failure::new("infra", format!("cannot write {path:?}: {e}"), json!(null)))?;
+    remove_real_tree(); // the parent runs with the virtual directories absent from the real disk
+    let exe = std::env::current_exe().map_err(|e| Failure::new("infra", e.to_string(), json!(null)))?;
+    let child = std::process::Command::new(exe)
+        .arg("C15")
+        .env("VERIF_C15_CHILD", &path)
+        .env("VERIF_C15_MAKE_REAL", "1")
+        .env("TZ", "<+11>-11")
+        .env("TZDIR", "/nonexistent/zoneinfo")
+        .env("LANG", "tr_TR.UTF-8")
+        .env("LC_ALL", "tr_TR.UTF-8")
+        .current_dir("/tmp")
+        .output();
+    let _ = std::fs::remove_file(&path);
+    let child = match child {
+        Ok(c) if c.status.success() => String::from_utf8_lossy(&c.stdout).to_string(),
+        other => return Err(Failure::new("infra", format!("child process failed: {other:?}"), json!(null))),
+    };
+    let lines: Vec<&str> = child.lines().collect();
+    if lines.len() != progs.len() {
+        return Err(Failure::new("infra", format!("child printed {} lines for {} programs", lines.len(), progs.len()), json!(null)));
+    }
+    let mut n = 0u64;
+    for (p, line) in progs.iter().zip(lines) {
+        let here = match sequential_digests(p) {
+            Ok(d) => d.iter().map(|x| x.to_string()).collect::<Vec<_>>().join(" "),
+            Err(_) => "ERR".into(),
+        };
+        n += p.ops.len() as u64;
+        if here != line {
+            let a: Vec<&str> = here.split(' ').collect();
+            let b: Vec<&str> = line.split(' ').collect();
+            let i = a.iter().zip(&b).position(|(x, y)| x != y).unwrap_or(0);
+            return Err(Failure::new(
+                "ambient",
+                format!("op #{i} {:?} returns something else in a process started with TZ='<+11>-11', TZDIR, LANG changed, cwd=/tmp and the virtual zoneinfo directories existing for real on disk (with other contents): the result depends on ambient process state", p.ops.get(i)),
+                p.clone(),
+            ));
+        }
+    }
+    Ok(n)
+}
+
 pub fn replay(kind: &str, case: &Value) -> Result<(), String> {
     if kind == "ambient-default-dir" {
         return match TimeZoneSettings::DEFAULT_DIRECTORIES.iter().find(|d| !d.starts_with('/')) {
@@ -312,7 +361,11 @@ pub fn replay(kind: &str, case: &Value) -> Result<(), String> {
             None => Ok(()),
         };
     }
-    check_program(&serde_json::from_value(case.clone()).map_err(|e| e.to_string())?, &mut Stats::new())
+    let p: Program = serde_json::from_value(case.clone()).map_err(|e| e.to_string())?;
+    if kind == "ambient" {
+        return ambient_compare(std::slice::from_ref(&p)).map(|_| ()).map_err(|f| f.summary);
+    }
+    check_program(&p, &mut Stats::new())
 }
 
 pub fn arb_program() -> SBoxedStrategy<Program> {
@@ -365,47 +418,10 @@ pub fn run(ctx: &Ctx) -> Outcome {
     // (4) child process under perturbed ambient state
     let mut dr = Drawer::new(ctx, "child", 0);
     let progs: Vec<Program> = (0..ctx.tier.pick(60, 600)).map(|_| dr.draw(&strat)).collect();
-    let path = crate::run::verif_dir().join("build/c15-programs.json");
-    let _ = std::fs::create_dir_all(path.parent().unwrap());
-    if std::fs::write(&path, serde_json::to_string(&progs).unwrap()).is_err() {
-        out.failure = Some(Failure::new("infra", "cannot write build/c15-programs.json", json!(null)));
-        return out;
-    }
-    remove_real_tree(); // the parent runs with the virtual directories absent from the real disk
-    let exe = std::env::current_exe().unwrap();
-    let child = std::process::Command::new(exe)
-        .arg("C15")
-        .env("VERIF_C15_CHILD", &path)
-        .env("VERIF_C15_MAKE_REAL", "1")
-        .env("TZ", "<+11>-11")
-        .env("TZDIR", "/nonexistent/zoneinfo")
-        .env("LANG", "tr_TR.UTF-8")
-        .env("LC_ALL", "tr_TR.UTF-8")
-        .current_dir("/tmp")
-        .output();
-    let child = match child {
-        Ok(c) if c.status.success() => String::from_utf8_lossy(&c.stdout).to_string(),
-        other => {
-            out.failure = Some(Failure::new("infra", format!("child process failed: {other:?}"), json!(null)));
-            return out;
-        }
-    };
-    let lines: Vec<&str> = child.lines().collect();
-    if lines.len() != progs.len() {
-        out.failure = Some(Failure::new("infra", format!("child printed {} lines for {} programs", lines.len(), progs.len()), json!(null)));
-        return out;
-    }
-    for (p, line) in progs.iter().zip(lines) {
-        let here = match sequential_digests(p) {
-            Ok(d) => d.iter().map(|x| x.to_string()).collect::<Vec<_>>().join(" "),
-            Err(_) => "ERR".into(),
-        };
-        out.stats.eval(p.ops.len() as u64);
-        if here != line {
-            let a: Vec<&str> = here.split(' ').collect();
-            let b: Vec<&str> = line.split(' ').collect();
-            let i = a.iter().zip(&b).position(|(x, y)| x != y).unwrap_or(0);
-            out.failure = Some(Failure::new("ambient", format!("op #{i} {:?} returns something else in a process started with TZ='<+11>-11', TZDIR, LANG changed, cwd=/tmp and the virtual zoneinfo directories existing for real on disk (with other contents): the result depends on ambient process state", p.ops.get(i)), p.clone()));
+    match ambient_compare(&progs) {
+        Ok(n) => out.stats.eval(n),
+        Err(f) => {
+            out.failure = Some(f);
             return out;
         }
     }
